@@ -43,7 +43,7 @@ CLOCKS = [D(2026, 4, 30, 9, 0), D(2027, 2, 28, 23, 30), D(2028, 2, 29, 0, 15), D
 def run(ctx):
     tier = ctx["tier"]
     R = rng("c14")
-    today = D.today()
+    today = D.today().replace(hour=12, minute=0, second=0, microsecond=0)
     n = 25 if tier == "quick" else 500
     cases = []
     dates = [D(1900, 1, 1), D(2100, 12, 31, 23, 59, 59, 999999), D(2000, 2, 29, 12, 0, 0, 500000), D(1969, 7, 20, 20, 17, 40), D(2068, 12, 31, 0, 0, 1), D(1999, 12, 31, 12, 59)]
@@ -128,6 +128,11 @@ def run(ctx):
                 hh, mi, ss = R.randint(0, 23), R.randint(0, 59), R.randint(0, 59)
                 cases.append({"s": "%02d %s %d %02d:%02d:%02d.%06d" % (dday, name, y, hh, mi, ss, us), "langs": [rec["name"]], "settings": {"RELATIVE_BASE": base, "TIMEZONE": "UTC"},
                               "fmts": ["%d %B %Y %H:%M:%S.%f"], "today": today, "expect": expect_str(D(y, m, dday, hh, mi, ss, us)), "stratum": "localized-names/fraction"})
+    # the custom-format parser reads the system clock for what a format does not state: run those cases under a controlled clock (today at noon),
+    # so that a run which crosses midnight cannot disagree with the expectation computed at its start
+    for c_ in cases:
+        if "today" in c_ and c_.get("clock") is None:
+            c_["clock"] = c_["today"]
     res = decide(ctx, cases, model_share=0.6 if tier == "quick" else 1.0)
     res["assumptions"] = ["'current' day/month and the missing year come from the system clock (read once at the start; the run must not cross midnight)",
                           "localized month names: the result must be the named month whichever parser produces it (the custom format on the translated string, or the absolute parser)",
